@@ -32,6 +32,10 @@ func msgs() []proch.Msg {
 		{Seq: 1, Payload: []byte{1}, Emitter: e, Chain: 2, Target: 255},
 		{Seq: 2, Payload: []byte{2}, Emitter: e, Chain: 4, Target: 255},
 		{Seq: 3, Payload: []byte{3}, Emitter: e, Chain: 2, Target: 255}, // never observed locally
+		// identifiers that collide with message 0 as decimal strings in the store key (sequence 1 vs 10,
+		// target chain 255 vs 2550): a stored VAA of THESE must not make message 0 "late"
+		{Seq: 10, Payload: []byte{4}, Emitter: e, Chain: 2, Target: 255},
+		{Seq: 1, Payload: []byte{5}, Emitter: e, Chain: 2, Target: 2550},
 	}
 }
 
@@ -76,6 +80,8 @@ func jobs(r *ev.Run) []job {
 		mk("two-observed", n3, []proch.Event{set, msg0, lb, {Kind: "msg", M: 1}, lb}, d-1),
 		mk("injected", n3, []proch.Event{set, {Kind: "inject", M: 1}, lb}, d-1),
 		mk("from-scratch", n3, nil, d+1),
+		mk("pending#1+stored#10-same-stream", n3, []proch.Event{set, msg0, lb, {Kind: "in", M: 3, InVar: 0, InSet: 0}}, d-1),
+		mk("pending-target255+stored-target2550", n3, []proch.Event{set, msg0, lb, {Kind: "in", M: 4, InVar: 0, InSet: 0}}, d-1),
 		mk("settled-then-set-update", n3, []proch.Event{set, msg0, lb, {Kind: "tick", DtSec: 31}, {Kind: "set", Set: 1}}, d-1),
 	}
 }
